@@ -63,11 +63,19 @@ WellFormed(set, fdes) ==
     /\ \A j \in DOMAIN set : CieOk(set[j].ins, 1, St0)
     /\ \A k \in DOMAIN fdes : LET init == RunCie(set[fdes[k].cie].ins, 1, St0) IN FdeOk(fdes[k].ins, 1, init, init)
 
-WriteExp(kind, set, fdes, le, probes) ==
-    LET w == Write(kind, set, fdes, le) IN
+(* pc = [some |-> FALSE] or [some |-> TRUE, c |-> builder CIE]: a plain, UNPADDED CIE   *)
+(* (13 bytes) that is already in the section before the table is written                 *)
+NoPre == [some |-> FALSE]
+PreBytes(kind, pc, le) ==
+    IF ~pc.some THEN <<>> ELSE EncCie(kind, CodecCie(kind, pc.c, Zero(8)), pc.c.asz, le)
+WriteExp(kind, set, fdes, le, probes, pc) ==
+    LET pre == PreBytes(kind, pc, le)
+        w   == WriteP(kind, set, fdes, le, pre) IN
     IF ~w.ok THEN [ok |-> FALSE, err |-> w.err]
     ELSE [ok |-> TRUE, bytes |-> w.b,
-          ents |-> [j \in DOMAIN w.ents |->
+          ents |-> (IF pc.some THEN <<[off |-> 0, len |-> Len(pre) - LenSize(pc.c.fmt), padok |-> TRUE, pre |-> TRUE] @@ CieExp(pc.c)>>
+                    ELSE <<>>)
+                \o [j \in DOMAIN w.ents |->
                       LET e == w.ents[j] IN
                       IF e.t = "cie"
                       THEN [off |-> e.off, len |-> e.len, padok |-> PadOk(set[e.id].fmt, e.len, set[e.id].asz)]
@@ -78,15 +86,17 @@ WriteExp(kind, set, fdes, le, probes) ==
 
 (* adds: CIEs passed to add_cie in call order; fdes name the CALL index, the *)
 (* builder maps it to the id returned by that call                           *)
-Case(fam, adds, fdes0, le, vendor) ==
+CaseP(fam, adds, fdes0, le, vendor, pc) ==
     LET bld   == Builder(adds)
         fdes  == [k \in DOMAIN fdes0 |-> [fdes0[k] EXCEPT !.cie = bld.ids[fdes0[k].cie]]]
         probes == [k \in DOMAIN fdes |-> SortedSeq(ProbeOffs(fdes[k]))]
     IN [fam |-> fam, asz |-> adds[1].asz, le |-> le, vendor |-> vendor, adds |-> adds, fdes |-> fdes0, probes |-> probes,
         ids |-> bld.ids, ncies |-> Len(bld.set),
         wf |-> WellFormed(bld.set, fdes),
-        exp |-> [debug |-> WriteExp("debug", bld.set, fdes, le, probes),
-                 eh    |-> WriteExp("eh", bld.set, fdes, le, probes)]]
+        pre |-> [debug |-> PreBytes("debug", pc, le), eh |-> PreBytes("eh", pc, le)],
+        exp |-> [debug |-> WriteExp("debug", bld.set, fdes, le, probes, pc),
+                 eh    |-> WriteExp("eh", bld.set, fdes, le, probes, pc)]]
+Case(fam, adds, fdes0, le, vendor) == CaseP(fam, adds, fdes0, le, vendor, NoPre)
 Emit(x) == PrintT(<<"CASE", ToJson(x)>>)
 
 (*=============================== "adv" ====================================*)
@@ -156,6 +166,15 @@ Pool(asz) == <<
 FdeFor(k, cieCall, bc) ==
     [MkBFde(cieCall, N8(4096 * k + 512), 256, << <<0, InsO("cfa_offset", 16 * k)>>, <<8, InsRO("offset", 3, -8 * k)>> >>)
         EXCEPT !.lsda = IF bc.lenc >= 0 THEN [some |-> TRUE, addr |-> N8(200000 + k)] ELSE NoLsda]
+(* "mix" states (explored in the same run): entries that do not start at a multiple of   *)
+(* their own address size — tables mixing CIEs of address size 4 and 8 (version 4, so    *)
+(* that .debug_frame reads back; .eh_frame refuses version 4), and tables written into a *)
+(* section that already holds an unpadded 13-byte CIE.  kc / kf extra two-byte / one-byte *)
+(* instructions sweep the entry sizes through every residue.                             *)
+Sames(k) == [j \in 1..k |-> InsR("same_value", 20 + j)]
+Restores(k) == [j \in 1..k |-> <<0, InsR("restore", 16)>>]
+MixCie(fmt, ver, asz, kc) == [MkBCie(fmt, ver, asz, 1, -4, 16) EXCEPT !.ins = <<InsRO("cfa", 7, 8)>> \o Sames(kc)]
+MixFde(k, call, kf) == MkBFde(call, N8(4096 * k), 64, Restores(kf) \o << <<4, InsO("cfa_offset", 16 * k)>> >>)
 TabInit == c = [stage |-> 0]
 TabNext ==
     \/ /\ c.stage = 0 /\ \E a \in {4, 8} : \E v \in DOMAIN Pool(4) : c' = [stage |-> 1, asz |-> a, adds |-> <<v>>, refs |-> <<>>]
@@ -163,11 +182,28 @@ TabNext ==
        /\ \E v \in DOMAIN Pool(4) : (~Slim \/ v <= 6 \/ c.adds[1] <= 2) /\ c' = [c EXCEPT !.adds = Append(@, v)]
     \/ /\ c.stage = 1 /\ Len(c.refs) < MaxFdes
        /\ \E r \in DOMAIN c.adds : c' = [c EXCEPT !.refs = Append(@, r)]
-TabInv == (c.stage = 1 /\ c.refs # <<>>) =>
-    LET pool == Pool(c.asz)
-        adds == [j \in DOMAIN c.adds |-> pool[c.adds[j]]]
-        fdes == [k \in DOMAIN c.refs |-> FdeFor(k, c.refs[k], adds[c.refs[k]])]
-    IN Emit(Case("tab", adds, fdes, (Len(c.adds) + Len(c.refs) + c.asz) % 3 # 0, "default"))
+    \/ /\ c.stage = 0 /\ \E kc \in 0..3 : \E pre \in BOOLEAN : c' = [stage |-> 4, kc |-> kc, pre |-> pre]   \* fan out
+    \/ /\ c.stage = 4
+       /\ \E kf \in 0..3 : \E shape \in {"48", "84", "4", "8"} : \E f64 \in BOOLEAN :
+            /\ (shape \in {"4", "8"} => c.pre)                  \* one address size is only interesting behind a prefix
+            /\ (Slim => (f64 = (kf % 2 = 1)))
+            /\ c' = [stage |-> 5, kc |-> c.kc, pre |-> c.pre, kf |-> kf, shape |-> shape, f64 |-> f64]
+TabInv ==
+    /\ (c.stage = 1 /\ c.refs # <<>>) =>
+          LET pool == Pool(c.asz)
+              adds == [j \in DOMAIN c.adds |-> pool[c.adds[j]]]
+              fdes == [k \in DOMAIN c.refs |-> FdeFor(k, c.refs[k], adds[c.refs[k]])]
+          IN Emit(Case("tab", adds, fdes, (Len(c.adds) + Len(c.refs) + c.asz) % 3 # 0, "default"))
+    /\ c.stage = 5 =>
+          LET fmt  == IF c.f64 THEN 64 ELSE 32
+              a4   == MixCie(32, IF c.shape = "4" THEN 1 ELSE 4, 4, c.kc)
+              a8   == MixCie(fmt, IF c.shape = "8" THEN 1 ELSE 4, 8, (c.kc + 1) % 4)
+              adds == CASE c.shape = "48" -> <<a4, a8>> [] c.shape = "84" -> <<a8, a4>>
+                        [] c.shape = "4" -> <<a4>> [] c.shape = "8" -> <<a8>>
+              fdes == IF Len(adds) = 2 THEN <<MixFde(1, 1, c.kf), MixFde(2, 2, (c.kf + 1) % 4), MixFde(3, 1, (c.kf + 2) % 4)>>
+                      ELSE <<MixFde(1, 1, c.kf), MixFde(2, 1, (c.kf + 1) % 4)>>
+              pc   == IF c.pre THEN [some |-> TRUE, c |-> MkBCie(32, 1, adds[1].asz, 1, -8, 16)] ELSE NoPre
+          IN Emit(CaseP("mix", adds, fdes, (c.kc + c.kf) % 3 # 0, "default", pc))
 
 (*==========================================================================*)
 Init == CASE Fam = "adv" -> AdvInit [] Fam = "ins" -> InsInit [] Fam = "tab" -> TabInit
